@@ -46,6 +46,24 @@ var c18Cfgs = []c18Cfg{
 	{"star-headers-credentialed", cors.Config{Origins: []string{"https://*.example.com"}, Credentialed: true, Methods: []string{"*"}, RequestHeaders: []string{"*"}}},
 	{"pna", cors.Config{Origins: []string{"https://*.example.com"}, Credentialed: true, Methods: []string{"PUT"}, RequestHeaders: []string{"X-Listed-1"}, ExtraConfig: cors.ExtraConfig{PrivateNetworkAccess: true}}},
 	{"pna-nocors", cors.Config{Origins: []string{"https://*.example.com"}, RequestHeaders: []string{"X-Listed-1"}, ExtraConfig: cors.ExtraConfig{PrivateNetworkAccessInNoCORSModeOnly: true}}},
+	// hundreds of discrete names in every list (lesson of seeded change C18-n: a per-lookup cost that only exists for large sets)
+	{"large-lists", cors.Config{Origins: c18ManyOrigins(300), Methods: append(c18ManyNames("M", 300), "PUT", "DELETE"), RequestHeaders: append(c18ManyNames("x-h", 1100), "X-Listed-1", "X-Listed-2"), MaxAgeInSeconds: 30, ResponseHeaders: c18ManyNames("x-e", 300)}},
+}
+
+func c18ManyNames(prefix string, n int) []string {
+	out := make([]string, n)
+	for i := range out {
+		out[i] = fmt.Sprintf("%s%04d", prefix, i)
+	}
+	return out
+}
+
+func c18ManyOrigins(n int) []string {
+	out := []string{"https://*.example.com", "https://example.com:*"}
+	for i := 0; i < n; i++ {
+		out = append(out, fmt.Sprintf("https://tenant%04d.example.org", i))
+	}
+	return out
 }
 
 // c18Reqs: request kinds with one attacker-sized field; n is the size.
@@ -189,6 +207,20 @@ func init() {
 			}
 			return preflightReq("https://a.example.com", "GET", v, false)
 		}})
+	// n ALLOWED names, sorted, as a browser lists them (only meaningful with the large-lists configuration; elsewhere a rejected list)
+	c18Reqs = append(c18Reqs,
+		kind{"preflight, ACRH listing the first n of 1100 configured names on one line", true, func(n int) Req {
+			return preflightReq("https://a.example.com", "PUT", []string{strings.Join(c18ManyNames("x-h", min(n, 1100)), ",")}, false)
+		}},
+		kind{"preflight, ACRH listing the first n of 1100 configured names, one per field line", true, func(n int) Req {
+			return preflightReq("https://a.example.com", "PUT", c18ManyNames("x-h", min(n, 1100)), false)
+		}},
+		kind{"preflight, ACRM = the n-th of 300 configured methods", true, func(n int) Req {
+			return preflightReq("https://a.example.com", fmt.Sprintf("M%04d", min(n, 299)), []string{"x-h0001"}, false)
+		}},
+		kind{"actual GET from the n-th of 300 configured tenant origins", true, func(n int) Req {
+			return actualReq("GET", fmt.Sprintf("https://tenant%04d.example.org", min(n, 299)))
+		}})
 	// n field lines of the single-valued request headers, the later lines being copies / case variants / junk
 	// (lesson of seeded change C18-ka: comparing every further Origin line with the first, allocating per line)
 	for _, variant := range []string{"same", "upper", "alternating-case", "other-allowed", "junk"} {
@@ -296,7 +328,7 @@ const (
 
 func TestVerif_C18(t *testing.T) {
 	r := newRun(t, "C18")
-	r.Rule("configuration kinds {allow-all, discrete, `*` headers anonymous, anonymous+authorization, credentialed, PNA, PNA no-cors} x debug off/on x 93 request kinds (incl. label-count families of the Origin - plain, A-label, numeric, hyphen, underscore - at 12 fine-grained sizes below the Origin length cap), each with one attacker-sized field (Origin bytes / labels / field lines - copies, case variants, other allowed origins, junk -, ACRM bytes / field lines, ACRPN field lines, ACRH bytes / elements / distinct sorted well-formed names / empty elements / OWS run / field lines; list elements and bytes drawn from lower-case, mixed-case, upper-case, non-token, non-ASCII, padded and long templates) x sizes 1..10^5 bytes and 1..10^4 elements (quick) or 14 sizes up to 10^6 bytes and 11 up to 10^5 elements (thorough). " +
+	r.Rule("configuration kinds {allow-all, discrete, `*` headers anonymous, anonymous+authorization, credentialed, PNA, PNA no-cors, large lists (300 origins / 300 methods / 1100 request headers / 300 exposed headers)} x debug off/on x 97 request kinds (incl. label-count families of the Origin - plain, A-label, numeric, hyphen, underscore - at 12 fine-grained sizes below the Origin length cap), each with one attacker-sized field (Origin bytes / labels / field lines - copies, case variants, other allowed origins, junk -, ACRM bytes / field lines, ACRPN field lines, ACRH bytes / elements / distinct sorted well-formed names / empty elements / OWS run / field lines; list elements and bytes drawn from lower-case, mixed-case, upper-case, non-token, non-ASCII, padded and long templates) x sizes 1..10^5 bytes and 1..10^4 elements (quick) or 14 sizes up to 10^6 bytes and 11 up to 10^5 elements (thorough). " +
 		"Each cell is measured three times: the sized request repeated, the sized request alternating with an ordinary browser preflight (state carried from request to request), and the sized request with Vary and every Access-Control-* response header pre-set by an outer layer. evaluation = one AllocsPerRun measurement (runs+1 ServeHTTP calls or pairs) with a reusable minimal writer and a no-op handler on the plain build; oracle: allocations <= " + fmt.Sprint(c18Ceiling) + " at every size and allocations at any size <= (maximum over the two smallest sizes) + " + fmt.Sprint(c18Slack) + ". non-trivial = measurement at size >= 100, distinct by construction")
 	r.Assume("the harness's writer, handler and pre-built request allocate nothing per call; GOMAXPROCS(1) during the measurement (testing.AllocsPerRun)")
 	if r.Variant != "plain" {
